@@ -25,13 +25,16 @@ LEVEL_TEXT = (
     "unchanged through super().__init__ chains, validate is called after it is stored), every raising path of "
     "validate (found through the hierarchy, mixins included) entails max_depth < grammar minimum and every "
     "returning path the converse, the error is the library's; (R4) mutate is interpreted on a node with a stored "
-    "context: it is re-created under that very context; (R5) AND forms aggregate minimum depths with max; (R6) "
-    "creation model (sa/rules/creationmodel.py): random_node interpreted with each real decider object - "
-    "MaxDepth, position-independent grow, Full, dynamic-SGE - over ALL decision scripts on four model grammars "
-    "and every limit from the grammar minimum to 3 (thorough: 4): no produced program is deeper than the limit "
-    "and no decision sequence fails. Small scope: the listed grammars and limits. A crossover donor's depth is "
-    "not compared with the remaining budget anywhere in the code; that path is dormant (see C06) and no rule is "
-    "armed on it."
+    "context: it is re-created under that very context; (R5) AND forms aggregate minimum depths with max; (R7) "
+    "the synthesis context stored on a created value is the context it was created under (create_node interpreted"
+    " per form with a context at depth 2: every context stored on the returned value holds depth 2), so that re-"
+    "creation under the stored context (R4) does not drift deeper with every mutation; (R6) creation model "
+    "(sa/rules/creationmodel.py): random_node interpreted with each real decider object - MaxDepth, position-"
+    "independent grow, Full, dynamic-SGE - over ALL decision scripts (an attribute a decider reads but no "
+    "constructor sets is a failure, not a guess) on four model grammars and every limit from the grammar minimum "
+    "to 3 (thorough: 4): no produced program is deeper than the limit and no decision sequence fails. Small "
+    "scope: the listed grammars and limits. A crossover donor's depth is not compared with the remaining budget "
+    "anywhere in the code; that path is dormant (see C06) and no rule is armed on it."
 )
 MUTATE = "geneticengine.representations.tree.treebased:mutate"
 
